@@ -201,7 +201,7 @@ pub enum Which {
     C05,
 }
 
-pub struct EditProp(pub Which, pub std::sync::atomic::AtomicU64);
+pub struct EditProp(pub Which, pub std::sync::atomic::AtomicU64, pub std::sync::atomic::AtomicU64);
 
 struct Plan {
     inits: Vec<Init>,
@@ -328,7 +328,12 @@ impl Prop for EditProp {
                     if nocache {
                         next.push(case.ops);
                     } else if let Some(k) = v.key {
-                        if seen.len() < plan.max_states && seen.insert(k) {
+                        if seen.len() >= plan.max_states {
+                            // the per-start state budget is exhausted: the run is reported as not exhaustive
+                            if !seen.contains(&k) {
+                                self.2.fetch_add(1, std::sync::atomic::Ordering::Relaxed);
+                            }
+                        } else if seen.insert(k) {
                             self.1.fetch_add(1, std::sync::atomic::Ordering::Relaxed);
                             next.push(case.ops);
                         }
@@ -342,6 +347,9 @@ impl Prop for EditProp {
         st.transitions += 1;
         let vs = check_edit(c, st, self.id());
         vs
+    }
+    fn cap_hits(&self) -> u64 {
+        self.2.load(std::sync::atomic::Ordering::Relaxed)
     }
     fn shrinks(&self, c: &EditCase) -> Vec<EditCase> {
         let mut out = vec![];
